@@ -50,6 +50,36 @@ func c20same(a, b ast.Exp) bool {
 	case *ast.UnopExp:
 		y, ok := b.(*ast.UnopExp)
 		return ok && x.Op == y.Op && c20same(x.Exp, y.Exp)
+	case *ast.FuncCallExp:
+		y, ok := b.(*ast.FuncCallExp)
+		if !ok || !c20same(x.PrefixExp, y.PrefixExp) || len(x.Args) != len(y.Args) {
+			return false
+		}
+		if (x.NameExp == nil) != (y.NameExp == nil) || (x.NameExp != nil && x.NameExp.Str != y.NameExp.Str) {
+			return false
+		}
+		for i := range x.Args {
+			if !c20same(x.Args[i], y.Args[i]) {
+				return false
+			}
+		}
+		return true
+	}
+	return false
+}
+
+func c20hasCall(e ast.Exp) bool {
+	switch x := e.(type) {
+	case *ast.FuncCallExp:
+		return true
+	case *ast.ParensExp:
+		return c20hasCall(x.Exp)
+	case *ast.TableAccessExp:
+		return c20hasCall(x.PrefixExp) || c20hasCall(x.KeyExp)
+	case *ast.BinopExp:
+		return c20hasCall(x.Exp1) || c20hasCall(x.Exp2)
+	case *ast.UnopExp:
+		return c20hasCall(x.Exp)
 	}
 	return false
 }
@@ -167,7 +197,12 @@ func (m *c20m) exp(e ast.Exp) {
 		switch x.Op {
 		case lexer.TkOpOr, lexer.TkOpAnd, lexer.TkOpLt, lexer.TkOpLe, lexer.TkOpGt, lexer.TkOpGe, lexer.TkOpEq, lexer.TkOpNe:
 			if c20same(x.Exp1, x.Exp2) {
-				m.hit(14, x.Loc)
+				if c20hasCall(x.Exp1) {
+					// two textually equal calls need not yield equal values: reporting them is not required
+					m.optional = append(m.optional, c20hit{14, x.Loc.StartLine})
+				} else {
+					m.hit(14, x.Loc)
+				}
 			}
 		}
 		// documented: the right operand is true / false. A constant left operand makes the result constant
@@ -253,6 +288,10 @@ var c20templates = []string{
 	/* 13 */ "local x = { \x01 = 1,\n p = { \x02 = 1,\n \x03 = 2 },\n \x04 = 3 }\n",
 	/* 14 */ "local x = { \x01 = 1,\n p = f({ \x02 = 1 }),\n q = function() return { \x03 = 1 } end,\n \x04 = 3 }\n",
 	/* 15 */ "g = { { \x01 = 1 },\n { \x02 = 2 },\n \x03 = { [\x1c] = 1, [\x1d] = 2 },\n [\"\x04\"] = 3 }\n",
+	// call expressions as compared operands: equal only with the same callee, method and argument list
+	/* 16 */ "if f(\x01) then g = 1 elseif f(\x01, \x02) then g = 2 elseif f() then g = 3 elseif f(\x03) then g = 4 end\n",
+	/* 17 */ "if o:m(\x01) then g = 1 elseif o:n(\x01) then g = 2 elseif o:m(\x02) then g = 3 elseif o.m(\x01) then g = 4 end\n",
+	/* 18 */ "local r = f(\x01) == f(\x01, \x02)\nlocal s = f(\x01, \x02) == f(\x01)\nlocal u = f(\x01) == f(\x02)\nt[f()] = t[f(\x01)]\n",
 }
 
 func VerifRun_C20() {
